@@ -512,6 +512,7 @@ Pick(d, q) == CASE Univ = "C03" -> C03Pick(d, q)
                 [] Univ = "C10" -> C10Pick(d, q)
                 [] Univ = "C14" -> IF q > Len(C14Queries) - Len(C14LitQ) THEN d = Len(C14Docs) ELSE d < Len(C14Docs)
                 [] Univ = "C05" -> IF q <= Len(C05DeepQ) THEN d = 4 ELSE IF q > Len(C05Queries) - Len(C05ChainLx) THEN d = 5 ELSE d <= 3 /\ Stride(StrideN, d, q)
+                [] Univ = "C15" -> Len(C15Queries[q]) <= 2 \/ d \notin {1, 6, 7}        \* (three-segment queries, thorough tier: not on the wide documents)
                 [] Univ = "C01D" -> IF q \in 5..(4 + C01DChained) THEN d > Len(C01DDocs) - 2 ELSE d <= Len(C01DDocs) - 2
                 [] Univ = "C11" -> IF q > Len(C11Queries) - Len(C11CountQ) - Len(C11WildSliceQ) THEN d = Len(C11Docs)
                                    ELSE IF q > Len(C11Queries) - Len(C11CountQ) - Len(C11WildSliceQ) - Len(C11RunQ) - Len(C11TouchQ) THEN TRUE ELSE d < Len(C11Docs) /\ Stride(StrideN, d, q)
